@@ -13,8 +13,9 @@ Go sources modelled (istio/istio, pilot/pkg/serviceregistry/ambient):
 krt `Fetch` returns objects in no particular order; the model takes the enumeration order as an
 explicit input: the order of the policy list.
 
-The two Boolean parameters select the behaviour before (`false`) / after (`true`) the `fix:`
-commits for findings F2 and F3 (see notes/C10.md); `true true` is the code in /repo.
+The `Fixes` parameter selects the behaviour before (`false`) / after (`true`) each of the five
+`fix:` commits for findings F2, F3, F10, F11, F12 (see notes/C10.md); `Fixes.all` is the code in
+/repo, `Fixes.none` the pinned tree 8d5216c.
 
 ztunnel semantics (`Authz.matches`, `denied`) are modelled from pkg/workloadapi/security/authorization.proto
 and ztunnel's documented evaluation: groups OR-ed, rules of a group AND-ed, matches of a rule OR-ed,
@@ -22,6 +23,18 @@ fields of a match AND-ed (empty field = no constraint, `not_` field = none of th
 a connection is rejected iff some attached DENY policy matches it.
 -/
 namespace IstioModel.C10
+
+/-- Which of the repairs are applied. -/
+structure Fixes where
+  f2  : Bool   -- `A || (B && (C || D))` instead of `A || (B && C || D)` in convertPeerAuthentication
+  f3  : Bool   -- DISABLE ports count as exemptions in the UNSET / inherited-STRICT branch of the keys
+  f10 : Bool   -- a namespace policy with mode UNSET is treated as absent by convertPeerAuthentication
+  f11 : Bool   -- creation-time ties are broken by (name, namespace) (`peerAuthnOlder`) instead of by krt order
+  f12 : Bool   -- a selector without labels counts as no selector everywhere (not only a nil selector)
+  deriving DecidableEq, Repr
+
+def Fixes.all : Fixes := ⟨true, true, true, true, true⟩
+def Fixes.none : Fixes := ⟨false, false, false, false, false⟩
 
 /-! ## ztunnel authorization policy (the subset emitted for PeerAuthentication) -/
 
@@ -56,16 +69,30 @@ def staticStrict : Authz := [[ruleNP]]
 
 /-! ## fetchPeerAuthentications -/
 
-def selNil (p : PA) : Bool := p.selector.isNone
+/-- "has no selector": `Selector == nil` on the pinned tree, `len(GetSelector().GetMatchLabels()) == 0`
+    after the repair of F12. -/
+def selNilG (fx : Fixes) (p : PA) : Bool := if fx.f12 then p.nsLevel else p.selector.isNone
+
+/-- `peerAuthnOlder a b` (repair of F11): strictly older, ties broken by name, then namespace. -/
+def olderThan (a b : PA) : Bool :=
+  if a.time ≠ b.time then decide (a.time < b.time)
+  else if a.name ≠ b.name then decide (a.name < b.name)
+  else decide (a.ns < b.ns)
+
+/-- `cur == nil || <cfg older than cur>`: `CreationTimestamp.Before` on the pinned tree. -/
+def takesG (fx : Fixes) (c : PA) (cur : Option PA) : Bool :=
+  match cur with
+  | none => true
+  | some o => if fx.f11 then olderThan c o else decide (c.time < o.time)
 
 /-- Own-namespace policies without selector or with a matching selector, then (for a workload
     outside the root namespace) the root-namespace policies whose selector is nil. -/
-def ambientFetch (root : String) (pas : List PA) (w : Workload) : List PA :=
+def ambientFetchG (fx : Fixes) (root : String) (pas : List PA) (w : Workload) : List PA :=
   pas.filter (fun p => p.ns == w.ns &&
       (match p.selector with
        | none => true
        | some l => subsetOf l w.labels)) ++
-  (if w.ns ≠ root then pas.filter (fun p => p.ns == root && selNil p) else [])
+  (if w.ns ≠ root then pas.filter (fun p => p.ns == root && selNilG fx p) else [])
 
 /-! ## convertedSelectorPeerAuthentications -/
 
@@ -77,11 +104,22 @@ structure AKeys where
 
 def portsAny (p : PA) (f : PMode → Bool) : Bool := p.ports.any (fun e => f e.2)
 
-/-- `convertedSelectorPeerAuthentications`; the selection loop is the same code as in
-    `ComposePeerAuthentication` (`composeSel`).  `fixF3`: the UNSET-workload / inherited-STRICT
+/-- The selection loop of `convertedSelectorPeerAuthentications` (a copy of the one in
+    `ComposePeerAuthentication`, with the ambient comparison). -/
+def ambientSelStep (fx : Fixes) (root : String) (s : Sel) (c : PA) : Sel :=
+  if c.nsLevel then
+    if c.ns = root then (if takesG fx c s.mesh then { s with mesh := some c } else s)
+    else (if takesG fx c s.ns then { s with ns := some c } else s)
+  else if c.ns ≠ root then (if takesG fx c s.wl then { s with wl := some c } else s)
+  else s
+
+def ambientSel (fx : Fixes) (root : String) (configs : List PA) : Sel :=
+  configs.foldl (ambientSelStep fx root) {}
+
+/-- `convertedSelectorPeerAuthentications`.  `fx.f3`: the UNSET-workload / inherited-STRICT
     branch also looks for DISABLE ports. -/
-def ambientKeysG (fixF3 : Bool) (root : String) (configs : List PA) : AKeys :=
-  let s := composeSel root configs
+def ambientKeysG (fx : Fixes) (root : String) (configs : List PA) : AKeys :=
+  let s := ambientSel fx root configs
   let e0 := match s.mesh with
     | some m => m.mtls == .strict
     | none => false
@@ -102,7 +140,7 @@ def ambientKeysG (fixF3 : Bool) (root : String) (configs : List PA) : AKeys :=
       else { static := e3, wl := none }
     | .unset =>
       if e3 then
-        if portsAny wl (fun m => m == .permissive || (fixF3 && m == .disable)) then { static := false, wl := some wl }
+        if portsAny wl (fun m => m == .permissive || (fx.f3 && m == .disable)) then { static := false, wl := some wl }
         else { static := e3, wl := none }
       else
         if portsAny wl (fun m => m == .strict) then { static := false, wl := some wl }
@@ -162,9 +200,17 @@ def shouldMergeStrict (nsCfg rootCfg : Option PA) : Bool :=
   if optStrict rootCfg && (optUnsetOrNil nsCfg || optStrict nsCfg) then true
   else optStrict nsCfg
 
+/-- Repair of F10: `if nsCfg != nil && isMtlsModeUnset(nsCfg.Spec.Mtls) { nsCfg = nil }`. -/
+def dropUnset (c : Option PA) : Option PA :=
+  match c with
+  | some p => if p.mtls == .unset then none else some p
+  | none => none
+
 /-- `convertPeerAuthentication` (`none` = nil: nothing is sent for this policy). -/
-def convertPAG (fixF2 : Bool) (root : String) (cfg : PA) (nsCfg rootCfg : Option PA) : Option Authz :=
-  if cfg.ns == root || selNil cfg || cfg.ports.isEmpty then none
+def convertPAG (fx : Fixes) (root : String) (cfg : PA) (nsCfg0 rootCfg : Option PA) : Option Authz :=
+  let fixF2 := fx.f2
+  let nsCfg := if fx.f10 then dropUnset nsCfg0 else nsCfg0
+  if cfg.ns == root || selNilG fx cfg || cfg.ports.isEmpty then none
   else
     let st0 : ConvSt := { groups := [], rules := if cfg.mtls == .strict then [ruleNP] else [], foundNon := false }
     let st := (sortPorts cfg.ports).foldl (convStep fixF2 cfg nsCfg rootCfg) st0
@@ -177,40 +223,41 @@ def convertPAG (fixF2 : Bool) (root : String) (cfg : PA) (nsCfg rootCfg : Option
 /-! ## PeerAuthDerivedPolicies -/
 
 /-- `getOldestPeerAuthn`: first policy of minimal creation time in enumeration order. -/
-def getOldest (l : List PA) : Option PA :=
-  l.foldl (fun acc p => if takes p acc then some p else acc) none
+def getOldestG (fx : Fixes) (l : List PA) : Option PA :=
+  l.foldl (fun acc p => if takesG fx p acc then some p else acc) none
 
 /-- The policy sent to ztunnel for PeerAuthentication `i` (`PeerAuthByNamespace` indexes only
     policies whose selector is nil). -/
-def derivedPolicyG (fixF2 : Bool) (root : String) (pas : List PA) (i : PA) : Option Authz :=
-  convertPAG fixF2 root i
-    (getOldest (pas.filter (fun p => p.ns == i.ns && selNil p)))
-    (getOldest (pas.filter (fun p => p.ns == root && selNil p)))
+def derivedPolicyG (fx : Fixes) (root : String) (pas : List PA) (i : PA) : Option Authz :=
+  convertPAG fx root i
+    (getOldestG fx (pas.filter (fun p => p.ns == i.ns && selNilG fx p)))
+    (getOldestG fx (pas.filter (fun p => p.ns == root && selNilG fx p)))
 
 /-! ## What ztunnel enforces for a workload -/
 
 /-- The DENY policies a workload references that exist in what istiod sends. -/
-def attachedG (fixF2 fixF3 : Bool) (root : String) (pas : List PA) (w : Workload) : List Authz :=
-  let k := ambientKeysG fixF3 root (ambientFetch root pas w)
+def attachedG (fx : Fixes) (root : String) (pas : List PA) (w : Workload) : List Authz :=
+  let k := ambientKeysG fx root (ambientFetchG fx root pas w)
   (if k.static then [staticStrict] else []) ++
   (match k.wl with
    | none => []
    | some p =>
-     match derivedPolicyG fixF2 root pas p with
+     match derivedPolicyG fx root pas p with
      | none => []                 -- referenced but never sent: nothing to enforce
      | some a => [a])
 
 /-- ztunnel rejects the connection iff some attached DENY policy matches. -/
-def deniedG (fixF2 fixF3 : Bool) (root : String) (pas : List PA) (w : Workload)
+def deniedG (fx : Fixes) (root : String) (pas : List PA) (w : Workload)
     (authenticated : Bool) (port : Nat) : Bool :=
-  (attachedG fixF2 fixF3 root pas w).any (fun p => p.matches authenticated port)
+  (attachedG fx root pas w).any (fun p => p.matches authenticated port)
 
 /-- The code in /repo (after the `fix:` commits). -/
-abbrev ambientKeys := ambientKeysG true
-abbrev convertPA := convertPAG true
-abbrev derivedPolicy := derivedPolicyG true
-abbrev attached := attachedG true true
-abbrev denied := deniedG true true
+abbrev ambientFetch := ambientFetchG Fixes.all
+abbrev ambientKeys := ambientKeysG Fixes.all
+abbrev convertPA := convertPAG Fixes.all
+abbrev derivedPolicy := derivedPolicyG Fixes.all
+abbrev attached := attachedG Fixes.all
+abbrev denied := deniedG Fixes.all
 
 /-! ## Printing (used by the driver) -/
 
@@ -223,9 +270,9 @@ def Authz.show (a : Authz) : String :=
 
 def sortStrings (l : List String) : List String := l.mergeSort (fun a b => decide (a ≤ b))
 
-def showAmbientG (fixF2 fixF3 : Bool) (root : String) (pas : List PA) (w : Workload) (ports : List Nat) : String :=
-  let fetched := ambientFetch root pas w
-  let k := ambientKeysG fixF3 root fetched
+def showAmbientG (fx : Fixes) (root : String) (pas : List PA) (w : Workload) (ports : List Nat) : String :=
+  let fetched := ambientFetchG fx root pas w
+  let k := ambientKeysG fx root fetched
   let f := IstioModel.Wire.encList (sortStrings (fetched.map (fun c => s!"{c.ns}/{c.name}")))
   let keys := (if k.static then [s!"{root}/istio_converted_static_strict"] else []) ++
     (match k.wl with
@@ -235,14 +282,14 @@ def showAmbientG (fixF2 fixF3 : Bool) (root : String) (pas : List PA) (w : Workl
   let pol := match k.wl with
     | none => "-"
     | some p =>
-      match derivedPolicyG fixF2 root pas p with
+      match derivedPolicyG fx root pas p with
       | none => "nil"
       | some a => Authz.show a
   let d := if ports.isEmpty then "-" else
     ",".intercalate (ports.map (fun p =>
-      s!"{p}:{if deniedG fixF2 fixF3 root pas w false p then 1 else 0}{if deniedG fixF2 fixF3 root pas w true p then 1 else 0}"))
+      s!"{p}:{if deniedG fx root pas w false p then 1 else 0}{if deniedG fx root pas w true p then 1 else 0}"))
   s!"F={f} K={ks} P={pol} D={d}"
 
-def showAmbient := showAmbientG false false
+def showAmbient := showAmbientG Fixes.all
 
 end IstioModel.C10
